@@ -145,29 +145,41 @@ class Explorer(LockStep2):
     """One run follows a prefix of actor indices, then the default policy; it reports the alternatives it
     passed by (prefixes that lead to schedules not equivalent to this one)."""
 
-    def explore(self, prefix):
+    def explore(self, prefix, sleep0=()):
+        """Sleep-set exploration: [sleep0] are the actors that must not move after the prefix until a call
+        dependent with their pending one has been made (their next call was explored in a sibling run)."""
         alts = []
-        state = {"last": None}
+        state = {"sleep": set(), "redundant": False}
 
         def choose(pos, pending, active):
-            cand = []
-            for b in active:
-                la = state["last"]
-                if la is not None and b < la[0] and not dependent(call_of(pending[b]), la[1]):
-                    continue            # swapping gives a smaller equivalent schedule, explored elsewhere
-                cand.append(b)
             if pos < len(prefix) and prefix[pos] in active:
                 pick = prefix[pos]
-            else:
-                pick = (cand or active)[0]
-                for b in cand:
-                    if b != pick:
-                        alts.append(list(self._done) + [b])
-            state["last"] = (pick, call_of(pending[pick]))
+                if pos == len(prefix) - 1:
+                    c = call_of(pending[pick])
+                    state["sleep"] = {x for x in sleep0 if x in active and x != pick
+                                      and not dependent(call_of(pending[x]), c)}
+                return pick
+            sleep = state["sleep"]
+            cand = [b for b in active if b not in sleep]
+            if not cand:
+                state["redundant"] = True       # every continuation is equivalent to an explored one
+                state["sleep"] = set()
+                return active[0]
+            pick = cand[0]
+            c = call_of(pending[pick])
+            if not state["redundant"]:
+                explored = [pick]
+                for b in cand[1:]:
+                    cb = call_of(pending[b])
+                    sl = [x for x in list(sleep) + explored if x in active and not dependent(call_of(pending[x]), cb)]
+                    alts.append((list(self._done) + [b], sl))
+                    explored.append(b)
+            state["sleep"] = {x for x in sleep if x in active and not dependent(call_of(pending[x]), c)}
             return pick
 
         res = self.run_policy(choose)
         res["alternatives"] = alts
+        res["redundant"] = state["redundant"]
         return res
 
     def run_policy(self, choose):
@@ -269,14 +281,14 @@ def tag_of(a):
     return "a%d_" % a
 
 
-def one_run(scn, template, work, prefix, n):
+def one_run(scn, template, work, prefix, n, sleep0=()):
     root = os.path.join(work, "r%d" % n)
     shutil.copytree(template, root, symlinks=True)
     from .c11 import snapshot
     pre = snapshot(root)
     actors = [make_actor(root, s) for s in scn["scripts"]]
     ex = Explorer(root, actors, hook_filter=hook_filter, timeout=30.0)
-    res = ex.explore(prefix)
+    res = ex.explore(prefix, sleep0)
     tags = [tag_of(i) for i in range(len(actors))]
     sigs = [sig_of(st, tags) for st in res["steps"]]
     # temp files left behind: map their uuid to the actor that created them
@@ -379,23 +391,23 @@ def run_scenario(desc, work):
         os.makedirs(template)
         build_template(scn, template)
         if "prefix" in desc:
-            todo, budget = [list(desc["prefix"])], 1
+            todo, budget = [(list(desc["prefix"]), [])], 1
         else:
-            todo, budget = [[]], desc.get("budget", 50)
+            todo, budget = [([], [])], desc.get("budget", 50)
         rng = random.Random(desc.get("seed", 0))
         seen = set()
         n = 0
         while todo and n < budget:
             if desc.get("order") == "dfs":
-                prefix = todo.pop()
+                prefix, sleep0 = todo.pop()
             else:
-                prefix = todo.pop(rng.randrange(len(todo)))
-            pre, res, sigs, snap, ws = one_run(scn, template, work, prefix, n)
+                prefix, sleep0 = todo.pop(rng.randrange(len(todo)))
+            pre, res, sigs, snap, ws = one_run(scn, template, work, prefix, n, sleep0)
             n += 1
             order = tuple(a for (a, _, _, _) in sigs)
             if "prefix" not in desc:
                 todo.extend(res["alternatives"])
-            if order in seen:
+            if order in seen or (res.get("redundant") and "prefix" not in desc):
                 continue
             seen.add(order)
             cases.append(emit(scn, thr, pre, res, sigs, snap, ws, prefix))
